@@ -8,6 +8,7 @@ import six
 import attr
 
 import asn1crypto.core
+import asn1crypto.parser
 
 from cryptodatahub.common.exception import InvalidValue
 
@@ -175,7 +176,7 @@ class LDAPExtendedRequestStartTLS(LDAPMessageParsableBase):
         if asn1_message['protocolOp'].name != 'extendedReq':
             raise InvalidType()
 
-        return LDAPExtendedRequestStartTLS(), len(asn1_message.dump())
+        return LDAPExtendedRequestStartTLS(), asn1crypto.parser.peek(bytes(parsable))
 
     def compose(self):
         return LDAPMessage({
@@ -200,7 +201,7 @@ class LDAPExtendedResponseStartTLS(LDAPMessageParsableBase):
 
         return LDAPExtendedResponseStartTLS(
             asn1_message['protocolOp'].chosen['resultCode'].native
-        ), len(asn1_message.dump())
+        ), asn1crypto.parser.peek(bytes(parsable))
 
     def compose(self):
         return LDAPMessage({
